@@ -53,6 +53,78 @@ theorem stamp_instant_roundtrip (off : String → Int) (msg : String) (s : Stamp
 example : instant (fun s => if s = "TT" then 32184000 else 0) (readBack "UTC" (written true (fun s => if s = "TT" then 32184000 else 0) "UTC" ⟨5, "TT"⟩)) =
     instant (fun s => if s = "TT" then 32184000 else 0) ⟨5, "TT"⟩ := stamp_instant_of_converting _ _ _
 
+/-! ## several segments, each with its own TIME_SYSTEM -/
+
+/-- what dump-then-load makes of one date of a segment, spelled out: the reading of the reference clock at the same instant, under the
+label of the segment -/
+theorem segsBack_eq (ofSegment : Bool) (off : String → Int) (segs : List (List Stamp)) :
+    segsBack true ofSegment off segs =
+      segs.map fun seg => seg.map fun s =>
+        (⟨instant off s + off (if ofSegment then segLabel seg else msgLabel segs), segLabel seg⟩ : Stamp) := by
+  simp [segsBack, readSeg, writeSeg, written, readBack, List.map_map, Function.comp_def]
+
+/-- **Every segment in its own scale** (clause "epoch(s) to the microsecond in the same time scale", messages of several segments): when
+the dates of a segment are converted to the label of *that segment*, every date of every segment — whatever the scales of the
+segments, whatever the scale of each date, whatever the clock offsets — comes back at the same instant, labelled like its segment. -/
+theorem segs_instants_roundtrip (off : String → Int) (segs : List (List Stamp)) :
+    (segsBack true true off segs).map (·.map (instant off)) = segs.map (·.map (instant off)) ∧
+    (segsBack true true off segs).map (·.map (·.scale)) = segs.map fun seg => seg.map fun _ => segLabel seg := by
+  rw [segsBack_eq]
+  constructor <;>
+    simp [List.map_map, Function.comp_def, instant]
+
+private theorem map_eq_self {α : Type} (f : α → α) (l : List α) (h : ∀ x ∈ l, f x = x) : l.map f = l := by
+  induction l with
+  | nil => rfl
+  | cons a t ih =>
+    simp only [List.map_cons, h a (List.mem_cons_self ..)]
+    rw [ih (fun x hx => h x (List.mem_cons_of_mem _ hx))]
+
+/-- … and a message whose dates are all labelled like the first date of their segment (each station its own time scale) comes back
+identical: same clock readings, same labels — whether or not the writer converts. -/
+theorem segs_roundtrip_id (conv : Bool) (off : String → Int) (segs : List (List Stamp))
+    (h : ∀ seg ∈ segs, ∀ s ∈ seg, s.scale = segLabel seg) : segsBack conv true off segs = segs := by
+  unfold segsBack readSeg writeSeg
+  simp only [if_true]
+  apply map_eq_self
+  intro seg hseg
+  simp only [List.map_map]
+  apply map_eq_self
+  intro s hs
+  exact stamp_roundtrip_same_scale conv off (segLabel seg) s (h seg hseg s hs)
+
+/-- a writer that expresses the dates of every segment in the scale of the **whole message** (the scale of its very first date) while each
+segment keeps its own label moves every date of a segment by the offset between the two clocks: the instants of a segment are kept
+**iff** the clock of its label and the clock of the message show the same reading. -/
+theorem segs_message_scale_shifts (off : String → Int) (segs : List (List Stamp)) (seg : List Stamp) (_hseg : seg ∈ segs) (s : Stamp) (_hs : s ∈ seg) :
+    instant off (readBack (segLabel seg) (written true off (msgLabel segs) s)) = instant off s ↔ off (segLabel seg) = off (msgLabel segs) := by
+  simp only [readBack, written, instant, if_true]
+  constructor <;> intro h <;> omega
+
+/-- read from the source: the OEM and the TDM writers convert the dates of a segment to the scale that segment is labelled with
+(`in_scale(x.date, <segment>.start.scale)` with `<segment>` the object `TIME_SYSTEM` is taken from) -/
+theorem writers_scale_of_segment : oemPointScaleOfSegment = true ∧ tdmObsScaleOfSegment = true := by decide
+
+/-- **Epochs of a message of several segments** (full statement for the OEM and TDM writers as they are): every date of every segment
+comes back at the same instant and carries the TIME_SYSTEM of its own segment. -/
+theorem segs_roundtrip (off : String → Int) (segs : List (List Stamp)) :
+    ∀ cs ∈ [(oemPointScaleConv, oemPointScaleOfSegment), (tdmObsScaleConv, tdmObsScaleOfSegment)],
+      (segsBack cs.1 cs.2 off segs).map (·.map (instant off)) = segs.map (·.map (instant off)) ∧
+      (segsBack cs.1 cs.2 off segs).map (·.map (·.scale)) = segs.map fun seg => seg.map fun _ => segLabel seg := by
+  obtain ⟨_, h2, h3⟩ := writers_convert_scale
+  obtain ⟨h4, h5⟩ := writers_scale_of_segment
+  intro cs hcs
+  simp only [List.mem_cons, List.not_mem_nil, or_false] at hcs
+  rcases hcs with h | h <;> subst h <;> simp only [h2, h3, h4, h5] <;> exact segs_instants_roundtrip off segs
+
+/-- station A in UTC, station B in GPS (GPS − TAI = −19 s, UTC − TAI = −37 s): both segments come back as they were -/
+example : segsBack true true (fun s => if s = "GPS" then -19000000 else if s = "UTC" then -37000000 else 0)
+    [[⟨7, "UTC"⟩, ⟨17, "UTC"⟩], [⟨9, "GPS"⟩, ⟨19, "GPS"⟩]] = [[⟨7, "UTC"⟩, ⟨17, "UTC"⟩], [⟨9, "GPS"⟩, ⟨19, "GPS"⟩]] := by decide
+
+/-- … while with the scale of the whole message as reference the second segment comes back 18 s early, still labelled GPS -/
+example : segsBack true false (fun s => if s = "GPS" then -19000000 else if s = "UTC" then -37000000 else 0)
+    [[⟨7, "UTC"⟩, ⟨17, "UTC"⟩], [⟨9, "GPS"⟩, ⟨19, "GPS"⟩]] = [[⟨7, "UTC"⟩, ⟨17, "UTC"⟩], [⟨9 - 18000000, "GPS"⟩, ⟨19 - 18000000, "GPS"⟩]] := by decide
+
 /-! ## continuous maneuvers -/
 
 /-- the two facts read from the source: the OPM writers print `man.start` as MAN_EPOCH_IGNITION of a continuous maneuver, the
